@@ -191,7 +191,47 @@ def rule_boundaries(ctx):
     yield ob(R, f, "util.intervals_to_boundaries:unique-round", good and good_r and okd and dv == 5, "boundaries are np.unique(round(intervals, q)) with q defaulting to %r" % (dv,))
 
 
+ARRAY_MAKERS = {"np.array", "np.asarray", "np.insert", "np.append", "np.concatenate", "np.hstack", "np.vstack", "np.delete", "np.asanyarray", "np.char.array"}
+LABEL_HELPERS = ["util.adjust_intervals", "util.adjust_events", "util.merge_labeled_intervals", "util.interpolate_intervals", "util.intervals_to_samples", "util.sort_labeled_intervals", "hierarchy._align_intervals", "util.index_labels"]
+
+
+def rule_labellist(ctx, rule="C13.LABELLIST"):
+    """Label sequences stay Python lists of the caller's own objects: a NumPy string array has a fixed width and truncates
+    longer labels (a filler such as '__T_MIN' inserted into an array of short labels becomes '__T_M')."""
+    for q in LABEL_HELPERS:
+        f = ctx.program.func(q, rule)
+        s = ctx.S.get(q)
+        lab = [p for p in f.all_params if "label" in p or p in ("lab_hier",)]
+        if not lab:
+            continue
+        bad = []
+        node = None
+        for c in s.calls():
+            if c.callee not in ARRAY_MAKERS:
+                continue
+            for a in c.args:
+                if a.op == "star":
+                    a = a.a[0]
+                carried = [x for x in tm.walk(_strip_len(a)) if x.op == "param" and x.a[0] in lab]
+                if carried:
+                    bad.append("%s(%s)" % (c.callee, tm.show(a, 2)))
+                    node = c.node
+        yield ob(rule, f, "%s:labels-stay-lists" % q, not bad, "labels are handled with list operations only (slicing, insert, append, indexing)" if not bad else "labels are turned into a NumPy array by %s: fixed-width strings truncate longer labels" % ", ".join(sorted(set(bad))[:2]), node=node)
+
+
+def _strip_len(t):
+    """Replace len(x) / x.shape by a constant so that only value-carrying uses remain."""
+
+    def f(x):
+        if x.op == "call" and call_name(x) == "builtins.len":
+            return tm.const(0)
+        return None
+
+    return tm.rebuild(t, f)
+
+
 RULES = [
+    ("C13.LABELLIST", 7, rule_labellist),
     ("C13.CROPSTRICT", 7, rule_cropstrict),
     ("C13.SIDES", 6, rule_sides),
     ("C13.MERGELOOKUP", 4, rule_mergelookup),
